@@ -17,19 +17,19 @@ CHECKS = {
    "the sub-command uses String keys instead of paths; beyond the bound only sampled",
    "property-based testing: exhaustive small-scope sweep + random sequences; oracle = union-find reference model; trace invariant at CLI level"),
  "C18": ("fault_enumeration",
-   "for every generated workspace the n output operations of the push are listed through a cfg-guarded hook and every single one (k = 1..n) is failed in turn on a fresh copy; additionally write(2) itself is made to fail through RLIMIT_FSIZE, and real obstacles are placed (.pc or a backup directory being a regular file, the reject path being a directory); each faulty run must exit 1 with a message naming the file and must not record patches whose files are not all written",
+   "for every generated workspace the n output operations of the push are listed through a cfg-guarded hook and every single one (k = 1..n) is failed in turn on a fresh copy; additionally write(2) itself is made to fail through RLIMIT_FSIZE, the push is run as an unprivileged user against a read-only directory (unlink fails) or a read-only parent of a directory it empties (rmdir fails), and real obstacles are placed (.pc or a backup directory being a regular file, the reject path being a directory); each faulty run must exit 1 with a message naming the file and must not record patches whose files are not all written",
    "faults at operation boundaries, EFBIG inside write(2) and wrong-type path components; no partial-write-then-success, fsync or crash faults",
    "fault injection enumerated per generated workspace (every k-th output operation) + kernel-level write faults; oracle = exit status / message / applied-patches invariant"),
  "C16": ("exploration",
-   "generated workspaces with -pN/-R spellings and differing ---/+++ names whose resolution depends on files created, deleted or renamed earlier in the same run; each is pushed sequentially, in parallel and split over two invocations; all must equal the model tree and the backup entries must name the resolved path",
+   "generated workspaces with -pN/-R spellings, names spelled a//b, a/./b, ./a/b or absolute with the root as first stripped component, DOS line ends, and differing ---/+++ names (also under -R) whose resolution depends on files created, deleted or renamed earlier in the same run; each is pushed sequentially, in parallel and split over two invocations; all must equal the model tree and the backup entries must name the resolved path",
    "trusts the model's statement of the resolution rule (old name if it currently exists, else new name)",
    "property-based testing: workspace generator with name-resolution model; oracle = model comparison + agreement of three execution modes"),
  "C17": ("exploration",
-   "generated workspaces put into a consistent 'm patches applied' state and then made inconsistent in one of ~12 ways (applied-patches edited/reordered/longer, unknown or applied goal, missing or unparseable patch at any position); exit status must be exactly 1 with a message and the full snapshot unchanged",
+   "generated workspaces put into a consistent 'm patches applied' state and then made inconsistent in one of ~14 ways (applied-patches edited/unreadable/reordered/longer, unknown or applied goal, patch missing, a directory, or unparseable at any position); exit status must be exactly 1 with a message and the full snapshot unchanged",
    "blank lines/comments in applied-patches are treated as consistent (the tool accepts them)",
    "property-based testing: generated inconsistent states; oracle = exit status 1 + unchanged snapshot invariant"),
  "C19": ("exploration",
-   "generated escaping file names (.., absolute, quoted spellings) in every header position x strip level x patch kind, run inside a sentinel directory with victim files where the names point; nothing outside the workspace may change and an escaping patch must be refused with exit 1",
+   "generated escaping file names (.., absolute, quoted spellings) in every header position x strip level x patch kind, run inside a sentinel directory with victim files where the names point; nothing outside the workspace may change and an escaping patch must be refused with exit 1; a second family pushes ordinary generated workspaces with -d from a launch directory full of decoys (same-named directories and files, a decoy of a backup that cannot be saved, dangling links at reject paths pointing outside) and requires everything outside the workspace to stay untouched",
    "escape judged lexically after stripping; names with '..' that stay inside may be refused or applied",
    "property-based testing: grammar-based name generator; oracle = sentinel snapshot invariant + refusal"),
  "C08": ("exploration",
@@ -37,15 +37,15 @@ CHECKS = {
    "trusts the tree model; absent and zero-length files are identified after the simulated pop (quilt's format cannot tell them apart)",
    "property-based testing: workspace generator with model T_0..T_n; oracle = expected backup set by construction + simulated quilt pop"),
  "C09": ("exploration",
-   "generated histories: a push to goal g cut into 1-5 invocations (push / push N / push <name> / -a, own options each) versus one invocation on a fresh copy; trees, rejects and applied-patches must be identical; an extra push with nothing to do must leave the full snapshot (inodes, mtimes) untouched, a repeat of a failed push must fail identically",
-   "backup directories are not compared across differently split runs",
+   "generated histories: a push to goal g cut into 1-5 invocations (push / push N / push <name> / -a, own options each) versus one invocation on a fresh copy; trees (files and directories), rejects and applied-patches must be identical; an extra push with nothing to do must leave the full snapshot (inodes, mtimes) untouched, a repeat of a failed push must fail identically",
+   "backup directories are not compared across differently split runs; one open known finding (a path that changes between file and directory within one invocation) is tolerated by an exact signature and its shape excluded from the generators",
    "property-based testing: stateful histories of invocations with a metamorphic (split vs single) oracle"),
  "C10": ("exploration",
-   "generated workspaces incl. failing series run with --dry-run under all option combinations; full recursive snapshot (bytes, modes, inodes, link counts, pinned mtimes of files and directories) must be unchanged and exit status / failing patch must equal a real run on a copy",
+   "generated workspaces incl. failing series, stale .pc/<patch>/ directories and dangling symbolic links at files to be created, run with --dry-run under all option combinations; full recursive snapshot (bytes, modes, inodes, link counts, pinned mtimes of files and directories) must be unchanged and exit status / failing patch must equal a real run on a copy",
    "observation by snapshot rather than syscall tracing",
    "property-based testing: snapshot invariant + differential against the real run"),
  "C14": ("exploration",
-   "generated workspaces (zero-length source and patch files, failing series, prior applied state, goals incl. already-applied names) run with -q/default loader and with sampled presentation/loader option sets; tree, .pc/**, rejects and exit status must be identical",
+   "generated workspaces (zero-length source and patch files, failing series, an unloadable patch behind the failing one, prior applied state, goals incl. already-applied names) run with -q/default loader and with sampled presentation/loader option sets; tree, .pc/**, rejects and exit status must be identical",
    "only a sample of option combinations per workspace (3 quick / 6 thorough of 11 sets)",
    "property-based testing: differential oracle across option variants of the same run"),
  "C15": ("exploration",
@@ -65,15 +65,15 @@ CHECKS = {
    "in-process part uses the libpatch API the binary uses; sampled histories",
    "property-based testing: stateful histories (apply* then rollback*) with an inverse oracle"),
  "C05": ("exploration",
-   "generated quilt workspaces with an independent tree model: the real binary is run on thousands of by-construction series (failures injected at any position/subset, all operations, dialects, options, goals) and exit status, tree (bytes+modes), applied-patches and the set of rejects are compared with the model",
+   "generated quilt workspaces with an independent tree model: the real binary is run on thousands of by-construction series (failures injected at any position/subset incl. renames that cannot be carried out and several failing entries for one file, all operations, dialects and name spellings, options, goals up to 2^64-1) and exit status, tree (bytes+modes), applied-patches and the set of rejects are compared with the model",
    "trusts the harness's tree model and diff renderer; shapes of open known findings are excluded by construction and counted",
    "property-based testing: workspace generator with by-construction model T_0..T_n; oracle = model comparison after running the binary"),
  "C13": ("exploration",
-   "generated failing quilt workspaces; the set of *.rej files and, through the harness's own unified-diff reader, their hunks are compared with the generator's knowledge of which hunks cannot apply; each reject must also be accepted by the tool's parser and name its file",
+   "generated failing quilt workspaces; the set of *.rej files and, through the harness's own unified-diff reader, their hunks (of all failing entries for the file, in patch order) are compared with the generator's knowledge of which hunks cannot apply; longer stale rejects of an earlier push lie at the same paths; each reject must also be accepted by the tool's parser and name its file",
    "trusts the generator's failure injection (sentinel lines, missing files, create-over-existing, delete mismatch)",
    "property-based testing: failure-injecting workspace generator; oracle = expected reject set and contents by construction"),
  "C20": ("exploration",
-   "metamorphic relation between two runs of the same generated input at fuzz limits F < F': whenever the F run applies completely the F' run must too, with the identical result (in-process at file-patch level and through the binary on generated series)",
+   "metamorphic relation between two runs of the same generated input at fuzz limits F < F': whenever the F run applies completely the F' run must too, with the identical result (in-process at file-patch level, incl. long files with a far exact match and a nearer decoy, and through the binary on generated series, incl. series longer than the default backup count)",
    "only complete successes at F constrain the F' run",
    "property-based testing: metamorphic oracle over generated hunks/series and pairs of fuzz limits"),
  "C01": ("exploration",
